@@ -105,3 +105,9 @@ Theorem C07_located_designs_are_the_nearest_ones_within_tolerance : forall point
   forall k, (k < length x)%nat -> Problem.sqdist (nth k x []) (nth (nth k idx O) points []) <= atol * atol.
 Proof. exact ExtraRefine2.gen_locate_points_spec. Qed.
 Print Assumptions C07_located_designs_are_the_nearest_ones_within_tolerance.
+
+(* calling an acquisition object is calling its forward (regenerated __call__ and constructors) *)
+From VOPyGen Require Gen_extra4.
+Theorem C07_acquisition_call_is_forward : Gen_extra4.gen_acq_call_is_forward = true.
+Proof. reflexivity. Qed.
+Print Assumptions C07_acquisition_call_is_forward.
